@@ -71,6 +71,7 @@ type Logger struct {
 	bufferSize int
 	flushCh    chan struct{}
 	stopCh     chan struct{}
+	flushDone  chan struct{} // closed when flushLoop has returned (nil if never started)
 
 	// Bulk logging (RFC 6908)
 	bulkLogging       bool
@@ -158,7 +159,11 @@ func NewLogger(cfg LoggerConfig, logger *zap.Logger) (*Logger, error) {
 
 // Start starts the background log flusher
 func (l *Logger) Start() {
-	go l.flushLoop()
+	l.flushDone = make(chan struct{})
+	go func() {
+		defer close(l.flushDone)
+		l.flushLoop()
+	}()
 	if l.maxAge > 0 {
 		go l.rotationLoop()
 	}
@@ -167,6 +172,11 @@ func (l *Logger) Start() {
 // Stop stops the logger and flushes remaining entries
 func (l *Logger) Stop() {
 	close(l.stopCh)
+	// A flush of the background loop that already took entries out of the buffer must
+	// have written them before the file is closed below
+	if l.flushDone != nil {
+		<-l.flushDone
+	}
 	l.Flush()
 	l.FlushPortBlocks()
 	if closer, ok := l.writer.(io.Closer); ok {
